@@ -112,6 +112,13 @@ def run(ctx):
         pa, pr = ap.params()[1], rv.params()[1]
         ea, alias = effects(ap, plan=pa)
         er, _ = effects(rv, plan=pr)
+        def guards(fn, n, plan):
+            return tuple(sorted(A.unparse(p.test).replace(plan + ".", "PLAN.") for p in A.parents(n) if isinstance(p, ast.If) and p is not fn.node and not on_failure_path(fn, p.body[0]) and any(A.contains_node(s_, n) for s_ in p.body)))
+        ga = {(INVERSE[k], tuple(x.replace(pa + ".", pr + ".") for x in a)): guards(ap, n, pa) for k, a, n in ea if k in INVERSE and not on_failure_path(ap, n)}
+        gr = {(k, a): guards(rv, n, pr) for k, a, n in er if k in INVERSE}
+        for key in sorted(set(ga) & set(gr)):
+            ctx.check("R1", rv, ga[key] == gr[key], f"guard-mismatch:{key[0]}{key[1]}", f"{op}: effect {key[0]}{key[1]} is conditional on the same predicate in apply and revert ({ga[key] or 'unconditional'})",
+                      f"{op}: apply performs `{INVERSE[key[0]]}{key[1]}` under {ga[key] or 'no condition'} but revert undoes it under {gr[key] or 'no condition'}: when the condition is false one direction happens without the other (e.g. a blocker's reference count is not taken but later released)", node=rv.node)
         succ = [(k, a) for k, a, n in ea if not on_failure_path(ap, n) and k in INVERSE]
         # the transient remove/refill of the old package on replace_op's failure path is excluded above
         want = Counter((INVERSE[k], tuple(x.replace(pa + ".", pr + ".") for x in a)) for k, a in succ)
@@ -214,6 +221,7 @@ def run(ctx):
 
 
 MUTANTS = [
+    {"name": "refcount-only-first", "file": "src/pkgcore/resolver/state.py", "old": "            l = plan.state.add_limiter(self.blocker, self.key)\n        else:\n            l = []\n        plan.rev_blockers.setdefault(self.choices, []).append((self.blocker, self.key))\n        plan.blockers_refcnt.add(self.blocker)\n        return l", "new": "            l = plan.state.add_limiter(self.blocker, self.key)\n            plan.blockers_refcnt.add(self.blocker)\n        else:\n            l = []\n        plan.rev_blockers.setdefault(self.choices, []).append((self.blocker, self.key))\n        return l", "rule": "R1"},
     {"name": "remove-revert-forgets-vdb", "file": "src/pkgcore/resolver/state.py", "old": "        plan.pkg_choices[self.pkg] = self.choices\n        plan.vdb_filter.remove(self.pkg)\n", "new": "        plan.pkg_choices[self.pkg] = self.choices\n", "rule": "R1"},
     {"name": "replace-revert-wrong-pkg", "file": "src/pkgcore/resolver/state.py", "old": "        plan.vdb_filter.remove(self.old_pkg)\n", "new": "        plan.vdb_filter.remove(self.pkg)\n", "rule": "R1"},
     {"name": "backtrack-enumerate-from-1", "file": "src/pkgcore/resolver/state.py", "old": "            for reversion_count, change in enumerate(reversed(self.plan[state_pos:])):\n                change.revert(self)\n            reversion_count += 1\n", "new": "            for reversion_count, change in enumerate(reversed(self.plan[state_pos:]), 1):\n                change.revert(self)\n", "rule": "R3"},
